@@ -571,10 +571,18 @@ func unspill(v ssa.Value) []ssa.Value {
 		return []ssa.Value{v}
 	}
 	st := cellStores(cell)
-	if len(st) == 0 {
+	// a named result returned by name ("return head") stores the cell's own value back into it: not a new value
+	var kept []ssa.Value
+	for _, sv := range st {
+		if ld, ok := sv.(*ssa.UnOp); ok && ld.Op == token.MUL && ld.X == ssa.Value(cell) {
+			continue
+		}
+		kept = append(kept, sv)
+	}
+	if len(kept) == 0 {
 		return []ssa.Value{v}
 	}
-	return st
+	return kept
 }
 
 // returnedValues lists, for result index i, every value a (non-recover) return of f may
@@ -624,6 +632,9 @@ func retValAt(ret *ssa.Return, i int) []ssa.Value {
 		if st, ok := in.(*ssa.Store); ok && st.Addr == ssa.Value(cell) {
 			last = st.Val
 		}
+	}
+	if ld, ok := last.(*ssa.UnOp); ok && ld.Op == token.MUL && ld.X == ssa.Value(cell) {
+		last = nil // "return name": the cell keeps what was assigned before
 	}
 	if last != nil {
 		return []ssa.Value{last}
